@@ -971,6 +971,14 @@ example : ∃ s ∈ qsites, s.isPanic = true ∧ ∃ r ∈ queryRoots, inSet que
   refine ⟨qsites.find? (·.isPanic) |>.get (by decide +kernel), List.mem_of_find?_eq_some (Option.some_get _).symm, ?_⟩
   decide +kernel
 
+/-- **the IBC middleware's callbacks are in the same inventory** (round 5): every `OnRecvPacket` / `OnAcknowledgementPacket` /
+`OnTimeoutPacket` of the fx-core module is a transaction-level root (they run inside `MsgRecvPacket` / `MsgAcknowledgement` /
+`MsgTimeout`, i.e. under the transaction runner), so `handler_panic_contained` and `handler_sites_disposed` speak about every
+explicit panic / `Must…` they reach; none of them is a block hook -/
+theorem ibc_callbacks_are_tx_roots :
+    (nodes.filter (·.kind == "ibc")).all (fun n => txRoots.contains n.id && !blockRoots.contains n.id) = true ∧
+    3 ≤ (nodes.filter (·.kind == "ibc")).length := by decide +kernel
+
 end Handler
 
 /-! ## bech32 decoding behind every Cosmos-address check (round 5): the decoder modelled, its slices in range, its constants regenerated
@@ -1045,6 +1053,29 @@ theorem bech32_address_text_length (pfx s : List Nat) (h : addressClass pfx (· 
           subst hh
           omega
         · exact absurd h (by decide)
+
+/-- `fxtypes.ParseAddress` with its bech32 test instantiated by the decoder model (`bech32.DecodeAndConvert(addr)` succeeds — any
+prefix, no address-length rule: this is what the IBC middleware runs on the `receiver` of an incoming packet): whenever the
+bech32 branch is taken the text has 8..1023 bytes, and the address it yields has at most 635 bytes — so `receiver.String()`
+(bech32 re-encoding, which fails only on 5-bit overflow) cannot be driven out of range by the packet -/
+def bech32Decodes (a : List Char) : Bool := (decodeAndConvert (a.map Char.toNat)).toOption.isSome
+
+theorem parseAddress_bech32_branch_bounded (ck : List Char → Bool) (a : List Char)
+    (h : FxVerif.Model.C20.parseAddress bech32Decodes ck a = .ok false) :
+    8 ≤ a.length ∧ a.length ≤ 1023 ∧
+    ∃ hrp bz, decodeAndConvert (a.map Char.toNat) = .ok (hrp, bz) ∧ bz.length ≤ 635 ∧ 1 ≤ hrp.length := by
+  have hb : bech32Decodes a = true := ((parseAddress_spec bech32Decodes ck a).1).1 h
+  unfold bech32Decodes at hb
+  cases hd : decodeAndConvert (a.map Char.toNat) with
+  | error e => rw [hd] at hb; simp [Except.toOption] at hb
+  | ok r =>
+    obtain ⟨hrp, bz⟩ := r
+    have := bech32_accepts_only_wellformed _ hrp bz hd
+    simp only [List.length_map] at this
+    exact ⟨this.1, this.2.1, hrp, bz, rfl, this.2.2.2.2, this.2.2.1⟩
+
+example : FxVerif.Model.C20.parseAddress bech32Decodes (fun _ => true) "a12uel5l".toList = .ok false := by
+  exact ((parseAddress_spec bech32Decodes (fun _ => true) "a12uel5l".toList).1).2 (by decide +kernel)
 
 -- non-vacuity: an accepted address, and every error class is inhabited (the model is executable)
 example : (decodeAndConvert ("cosmos1qypqxpq9qcrsszg2pvxq6rs0zqg3yyc5lzv7xu".toList.map Char.toNat)).toOption =
